@@ -13,7 +13,9 @@
     (np.mean(global_snapshots), expval(k=1)) does the averaging.
     TRACE: qp.classical_shadow executed on default.qubit / default.mixed; Trace_Shadows.tla decides the documented form
     (shape (2,T,n), recipes in {0,1,2}, bits in {0,1}) and that every sampled row has non-zero exact probability
-    (which binds the recipe and bit conventions), and emits the exact estimator sums compared with qp.shadow_expval."""
+    (which binds the recipe and bit conventions); qp.shadow_expval on the same circuit must return a value that is a feasible
+    sum of per-snapshot estimates of rows with non-zero probability (sign-definite for words stabilising the state), decided
+    by TLC; equality with classical_shadow + ClassicalShadow.expval under the same seeds is recorded as drift only."""
 import json
 import random
 from concurrent.futures import ThreadPoolExecutor
@@ -122,7 +124,7 @@ def check_tables(ctx, n, tab, rng):
     exp_glob = np.array([snap[ri][bi] for ri, bi in rows])
     for t, (ri, bi) in enumerate(rows):
         ctx.cmp(f"global_snapshot:n={n}:r={recipes[t].tolist()}:b={bits[t].tolist()}", "ClassicalShadow.global_snapshots() row vs tensor product of "
-                "documented local snapshots", glob[t] if glob.shape[0] == len(rows) else glob, exp_glob[t],
+                "documented local snapshots", glob[t], exp_glob[t],
                 {"n": n, "recipe": recipes[t].tolist(), "bits": bits[t].tolist()})
     # wire selection / order: snapshots on the permuted columns equal the table entry of the permuted (recipe, bits)
     if n >= 2:
